@@ -164,23 +164,42 @@ func runC19(c *sim.Ctx) {
 	names := t.ColNames()
 	var sel []string
 	var cols []string
+	// one query in three is spelled differently: keyword and identifier case, quoting
+	// style, trailing semicolon/space, the rowid pseudo-column. The driver may reject a
+	// spelling (counted); if it answers, the rows must be the native ones.
+	variant := s.Chance(1, 3, "syntax-variant")
+	qi := func(name string) string {
+		if variant {
+			return gen.IdentRef(s, name, 6)
+		}
+		return gen.Quote(name)
+	}
 	if star {
 		sel = []string{"*"}
 		cols = names
 		if s.Chance(1, 4, "star-plus") {
 			extra := names[s.Draw(len(names), "extra")]
-			sel = append(sel, gen.Quote(extra))
+			sel = append(sel, qi(extra))
 			cols = append(append([]string{}, names...), extra)
 		}
 	} else {
 		n := 1 + s.Draw(len(names), "ncols")
 		for i := 0; i < n; i++ {
 			cn := names[s.Draw(len(names), "col")]
-			sel = append(sel, gen.Quote(cn))
+			sel = append(sel, qi(cn))
 			cols = append(cols, cn)
 		}
 	}
-	query := "SELECT " + strings.Join(sel, ", ") + " FROM " + gen.Quote(t.Name)
+	if variant && !t.WithoutRowid && t.ColIndex("rowid") < 0 && s.Chance(1, 3, "rowid-column") {
+		rn := []string{"rowid", "ROWID", "oid", "_rowid_"}[s.Draw(4, "rowidname")]
+		sel = append(sel, rn)
+		cols = append(append([]string{}, cols...), rn)
+	}
+	query := "SELECT " + strings.Join(sel, ", ") + " FROM " + qi(t.Name)
+	if variant {
+		kw := [][2]string{{"select", "from"}, {"Select", "From"}, {"SELECT", "from"}, {"SELECT", "FROM"}}[s.Draw(4, "kwcase")]
+		query = kw[0] + " " + strings.Join(sel, []string{", ", ",", " , "}[s.Draw(3, "comma")]) + " " + kw[1] + " " + qi(t.Name) + []string{"", ";", " ", "\n", " ;"}[s.Draw(5, "trailer")]
+	}
 	native, nerr := nativeRows(c, path, t.Name, cols)
 	if nerr != nil {
 		c.Inc("native_error", 1)
@@ -240,6 +259,10 @@ func runC19(c *sim.Ctx) {
 			defer cancel()
 			rows, err := db.QueryContext(ctx, query)
 			if err != nil {
+				if variant {
+					c.Inc("syntax_variant_rejected", 1)
+					return
+				}
 				fail("driver-error", "query-error", fmt.Sprintf("Query(%q) failed, the native select works: %v", query, err))
 				return
 			}
@@ -327,7 +350,7 @@ func runC19(c *sim.Ctx) {
 			var gated, closeReturnedA atomic.Bool
 			var readsA atomic.Int64
 			tr := &pg.Trace{P: fp}
-			failAt, failLate := 0, 0
+			failAt, failLate, qreadsDry := 0, 0, 0
 			if mode == 2 {
 				// dry run through the same path to learn how many page reads one execution
 				// makes, so that the fault always lands inside it
@@ -359,6 +382,7 @@ func runC19(c *sim.Ctx) {
 					// land the fault in the producer's scan, not in QueryContext's own column lookup
 					failLate = 1 + s.Draw(nreads-qreads, "failat-scan")
 					failAt = 0
+					qreadsDry = qreads
 				}
 				c.Fault("read-error-mid-scan")
 			}
@@ -386,11 +410,18 @@ func runC19(c *sim.Ctx) {
 			// column lookup (then QueryContext must fail) or in the producer's scan
 			if failAt > 0 {
 				tr.ArmFailAfter(failAt)
+			} else if failLate > 0 {
+				// an absolute position (QueryContext's own reads are known from the dry run):
+				// it does not matter whether the producer goroutine has started by the time
+				// QueryContext returns
+				tr.SetFailAt(tr.ReadCount() + qreadsDry + failLate)
 			}
 			rowsI, err := stmt.QueryContext(ctx, nil)
 			if err != nil {
 				if tr.HasFired() {
 					c.Probe("fault-in-query-surfaced")
+				} else if variant {
+					c.Inc("syntax_variant_rejected", 1)
 				} else {
 					fail("driver-error", "query-error", fmt.Sprintf("QueryContext(%q): %v", query, err))
 				}
@@ -398,10 +429,6 @@ func runC19(c *sim.Ctx) {
 				return
 			}
 			rows := rowsI.(*drv.Rows)
-			if failLate > 0 {
-				// one P: the producer goroutine has not run yet
-				tr.ArmFailAfter(failLate)
-			}
 			readAll := mode == 2 && s.Chance(1, 2, "readall")
 			rescue = func() {
 				gated.Store(false)
@@ -649,7 +676,9 @@ func runC19(c *sim.Ctx) {
 			}
 			stmt, err := db.PrepareContext(ctx, q)
 			if err != nil {
-				if !badcol {
+				if variant {
+					c.Inc("syntax_variant_rejected", 1)
+				} else if !badcol {
 					fail("driver-error", "prepare-error", fmt.Sprintf("Prepare(%q): %v", q, err))
 				}
 				return
@@ -668,16 +697,13 @@ func runC19(c *sim.Ctx) {
 				if star {
 					cur := w.Snap.Table(t.Name)
 					if cur != nil {
-						expCols = append([]string{}, cur.ColNames()...)
-						if len(sel) > 1 {
-							expCols = append(expCols, cols[len(cols)-1])
-						}
+						expCols = append(append([]string{}, cur.ColNames()...), cols[len(names):]...)
 					}
 				}
 				nat, nerr := nativeRows(c, path, t.Name, expCols)
 				rows, err := stmt.QueryContext(ctx)
 				if err != nil {
-					if nerr == nil && !badcol {
+					if nerr == nil && !badcol && !variant {
 						fail("driver-error", "query-error:prepared", fmt.Sprintf("execution %d of prepared %q failed, the native select works: %v", e+1, q, err))
 						return
 					}
@@ -798,7 +824,7 @@ func init() {
 		Real: append([]string{"sqlittle driver package, database/sql (real, inside the bubble), producer goroutine; unix file pager on real files"}, realAll...),
 		Stub: []string{"none: the gate in the tracing pager only parks the producer"},
 		Assumptions: []string{"Go's choice among several ready select cases is not seedable: the scheduler never cancels while a Next is outstanding on a parked producer and never issues Next after cancel; both outcomes of that select are reached through the two explored orders (DESIGN §5.4)", "the goroutine-leak oracle is synctest's end-of-bubble deadlock report"},
-		MaxRunSecs: 20,
+		MaxRunSecs: 60,
 		DeathSig: func(tail string, hung bool) string {
 			switch {
 			case strings.Contains(tail, "DATA RACE"):
